@@ -114,6 +114,37 @@ prop('C08',
           'from_weekday_of_month_opt, years_since, quarter, year_ce, num_days_in_month, weeks_from, Month::num_days, and the NaiveDateTime forms (other part kept). '
           'Verus proves NaiveTime::with_* and NaiveWeek::checked_first_day/checked_last_day (starts on the chosen weekday, at most six days earlier, spans seven days).')
 
+prop('C10',
+     title='RFC 3339 output is conformant and input acceptance is exact',
+     kani=['vk_fmt_rfc3339_secs', 'vk_fmt_offset'],
+     uncovered=['acceptance of exactly the RFC 3339 grammar by parse_rfc3339 over all strings (hand-written &str scanner: no contract within reach)',
+                'fractional-second renderings Millis/Micros/Nanos/AutoSi (go through core::fmt write!)', 'years outside 0..=9999 (core::fmt path)',
+                'to_rfc3339 / to_rfc3339_opts String wrappers around write_rfc3339'],
+     text='Kernel only. Kani proves write_rfc3339 with SecondsFormat::Secs for every date-time with wall-clock year 0..=9999 x every whole-minute offset x use_z: '
+          'the 19 date/time bytes are the wall-clock fields (second 60 for a leap second), then Z (only on request and only for offset zero) or +hh:mm; and OffsetFormat::format '
+          'for every offset x precision x colon x padding x Z option against an independent byte-level rendering. Grammar-exact parsing over all strings is out of reach of function contracts.')
+
+prop('C12',
+     title='Every strftime specifier renders the documented field',
+     kani=['vk_fmt_numeric_years', 'vk_fmt_numeric_iso_years', 'vk_fmt_numeric_month_day', 'vk_fmt_numeric_weeks', 'vk_fmt_numeric_isoweek', 'vk_fmt_numeric_time', 'vk_fmt_offset'],
+     uncovered=['%Y %G %j %f %s and fraction specifiers (core::fmt write!)', '%C / ISO century outside 0..=99 (core::fmt path)', 'weekday/month names and locales', 'composite specifiers and the StrftimeItems format-string parser',
+                'literal copying'],
+     text='Kernel only. Kani proves DelayedFormat::format_numeric for the items that avoid core::fmt (%C %y %g %m %d %e %U %W %V %q %w %u %H %k %I %l %M %S) x Pad::{None,Zero,Space} '
+          'over all dates / times (week numbers per the documented first-Sunday / first-Monday rule, 12-hour clock at 0 and 12, second 60), missing fields make formatting fail, '
+          'and the offset specifiers via OffsetFormat::format for every offset with seconds.')
+
+prop('C14',
+     title='Field resolution never returns a value that contradicts a supplied field',
+     kani=['vk_parsed_set_year', 'vk_parsed_set_year_div_100', 'vk_parsed_set_year_mod_100', 'vk_parsed_set_isoyear', 'vk_parsed_set_isoyear_div_100', 'vk_parsed_set_isoyear_mod_100', 'vk_parsed_set_quarter', 'vk_parsed_set_month', 'vk_parsed_set_week_from_sun', 'vk_parsed_set_week_from_mon', 'vk_parsed_set_isoweek', 'vk_parsed_set_ordinal', 'vk_parsed_set_day', 'vk_parsed_set_minute', 'vk_parsed_set_second', 'vk_parsed_set_nanosecond', 'vk_parsed_set_timestamp', 'vk_parsed_set_offset', 'vk_parsed_set_clock', 'vk_parsed_date_agrees', 'vk_parsed_complete_ymd', 'vk_parsed_complete_yo',
+           'vk_parsed_complete_wsun', 'vk_parsed_complete_wmon', 'vk_parsed_complete_iso', 'vk_parsed_year_groups', 'vk_parsed_insufficient', 'vk_parsed_time', 'vk_parsed_offset'],
+     kani_timeout=2400,
+     uncovered=['Parsed::to_naive_datetime_with_offset (timestamp cross-check and reconstruction: day-count arithmetic beyond CBMC; not yet under a Verus contract)',
+                'Parsed::to_datetime / to_datetime_with_timezone (go through the above and the TimeZone lookup)'],
+     text='Kani proves, with all 14 date fields fully symbolic (Option<any i32/u32>), that a successful Parsed::to_naive_date agrees with every supplied field; completeness for each '
+          'documented sufficient combination with every other derived field optionally present; year-group rules (century + two-digit year, 1970-2069 pivot); insufficient sets are NOT_ENOUGH; '
+          'to_naive_time with all clock fields symbolic (second 60, missing seconds, nanosecond without second, exact error kinds); to_fixed_offset; every setter for every i64 '
+          '(accepted exactly in range, stored exactly, second set accepted exactly when equal).')
+
 prop('C17',
      title='Rounding and truncation land on the right multiple',
      verus=['round'],
@@ -143,8 +174,8 @@ prop('C19',
 
 # properties not (or not yet) claimed: every id of properties.jsonl is either in PROPS or here
 NOT_APPLICABLE = {
- 'C10': 'not built yet', 'C12': 'not built yet',
-    'C14': 'not built yet', 'C15': 'not built yet', 'C16': 'not built yet',
+
+    'C15': 'not built yet', 'C16': 'not built yet',
     'C09': 'print->parse round trip lives in core::fmt and &str scanning with iterator adapters: no function contract within reach of Verus (no str bytes) and only bounded exploration in Kani, which is another technique',
     'C11': 'RFC 2822 reader/writer is a hand-written scanner over arbitrary strings (comments, name tables, String building): only bounded string exploration is possible',
     'C13': 'format/parse inverse over a family of format strings: same reason as C09',
